@@ -90,7 +90,7 @@ def expander(pid, tier, types):
                     out.append(dict(id="%s.%s.%d" % (bid, t, k), mode="schema", type=t, leaf=c["leaf"], present=c["present"], only=k,
                                     seed=seed0 + c["seed"] * 7919 + i * 13 + k, params=params, n=mut))
         elif mode == "shape":
-            if pid == "C16" and len(c["members"]) > 1:
+            if pid == "C16" and len(c["members"]) > 1 and len(c["members"]) != 3:
                 return []
             if pid != "C04" and any(m["extra"] == "explicit" for m in c["members"]):
                 return []      # the decoder has no notion of field-level EXPLICIT: exercised on the encoder only
@@ -139,7 +139,8 @@ def check(pid, tier, replay=None):
             cap = 1500
         if len(behs) > cap:
             keep = lambda b: (b["mode"] in ("prim", "fuzz", "foreign") or b.get("present") in ("only", "defaults", "deepest")   # noqa: E731  systematic cases
-                              or any(m["tag"] < 0 or m["kind"] in ("strplain", "slicestr") for m in b.get("members") or []))
+                              or any(m["tag"] < 0 or m["kind"] in ("strplain", "slicestr") for m in b.get("members") or [])
+                              or len(b.get("members") or []) == 3)
             prim = [b for b in behs if keep(b)]
             rest = [b for b in behs if not keep(b)]
             rnd.shuffle(rest)
